@@ -20,7 +20,11 @@ func TestDebug(t *testing.T) {
 		for _, n := range w.nodes {
 			fmt.Printf("node %d tip h=%d id=%s best=%d\n", n.idx, n.tip.Index.Height, short(n.tip.Index.ID), len(n.best))
 			fmt.Printf("  skew=%v held=%d orphans=%d crashed=%v work=%v\n", n.skew, n.held, len(n.orphans), n.crashed, n.tip.TotalWork)
-			for id, e := range n.blocks { if e.invalid { fmt.Printf("  invalid %s h=%d applied=%v\n", short(id), e.height, e.applied) } }
+			for id, e := range n.blocks {
+				if e.invalid {
+					fmt.Printf("  invalid %s h=%d applied=%v\n", short(id), e.height, e.applied)
+				}
+			}
 		}
 	}
 	debugKeep = 100000
